@@ -1,6 +1,6 @@
 """C14 — The XML parser accepts only balanced documents and reports them faithfully (DESIGN §7 C14)."""
 import os, json, re
-from vlib.core import Ctx, hexs, unhex, ddmin
+from vlib.core import Ctx, hexs, unhex, ddmin, load_known_findings
 
 ID = "C14"
 MODULES = ["IoraModel.Props.C14"]
@@ -30,7 +30,24 @@ C14_X7_tree|Iora.C14.X7_tree_faithful|every forest of element trees within the l
 C14_X7_dom_tree|Iora.C14.X7_dom_of_tree|the DOM built for a rendered forest, walked in document order, is the forest's own events with attribute values decoded
 C14_N1_qname|Iora.C14.N1_splitQName|splitQName splits at the first colon (prefix colon-free), none iff no colon, prefix:local round-trips
 C14_X7_text|Iora.C14.X7_leading_space_kept|F29 repaired: a text node that starts with white space is reported with it
-C14_gen|Iora.C14.gen_conformance|constants regenerated from the header (token kinds, defaults, entity chain, character classes, UTF-8 bounds, messages) are what the model uses
+C14_gen|Iora.C14.gen_conformance|facts regenerated from the header are what the model uses: token kinds, defaults, entity chain, all three copies of the white-space test, DOCTYPE boundary, name classes, UTF-8 bounds, messages, read sites, eof(), the throw switch, every Options test, the runSax switch, the DomBuilder switch (fresh decoded string per value, raw CDATA/comment/PI, Text guard), decodeEntities clears its output first
+C14_X2_decode_reads|Iora.C14.X2_decode_reads|decodeEntities/appendCharRef written read by read (in[i], ent[0], entBody[1], entBody[i] as partial indexed reads under the C++ guards, Gen.Xml.decodeReadSites) equal the decoder of X5: no out-of-range read, no exhausted loop
+C14_X8_dtor|Iora.C14.X8_destructor_visits_once|~Node as repaired (FC14a): the work-list loop drops every node of the subtree exactly once (permutation of the pre-order listing), in size-many steps, each node childless when dropped (no recursion at any depth)
+C14_X9_throwing|Iora.C14.X9_throwing_build|the two builds (IORA_XML_THROW_ON_ERROR=0/1): one next() gives the same token/state, a document the same token list and the same end (same error, same cursor), except that an over-long name is `name too long` when throwing and `invalid ... name` by default
+C14_X3_public|Iora.C14.X3_public_next|the public next() with its _hasError/_emittedEof latches: length+2 or more calls return exactly the run's tokens; afterwards every call returns false and changes nothing
+C14_X7_first|Iora.C14.X7_first_occurrence|findSub (readUntil / find("?>")) returns k iff the terminator is a prefix of the input from k on and from no smaller index on
+C14_X7_comment|Iora.C14.next_comment_exact|after <!-- the Comment token is the slice up to the FIRST --> (cursor right after it, nothing else changes); no --> = unterminated comment
+C14_X7_cdata|Iora.C14.next_cdata_exact|after <![CDATA[ the CData token is the slice up to the FIRST ]]>; none = unterminated CDATA
+C14_X7_pi|Iora.C14.next_pi_exact|after <?target the PI token has name = target and text = everything up to the FIRST ?> (separator white space included); none = unterminated PI
+C14_X7_doctype|Iora.C14.next_doctype_exact|after <!DOCTYPE (any letter case) + boundary byte (white space incl. CR, > or [) the Doctype token is the slice up to the first > outside [...]
+C14_X7_text_exact|Iora.C14.next_text_exact|a run without < containing a non-space byte, followed by < or the end, is ONE Text token with exactly those bytes (leading/trailing white space included)
+C14_X7_content|Iora.C14.X7_content_faithful|FULL X7 on construct sequences: tags, text, CDATA, comments, PIs, DOCTYPE of the supported subset, any formatting: accepted and reported byte for byte, in order, at depth; formatting white space yields no event
+C14_X7_document|Iora.C14.X7_document_faithful|FULL X7 on document trees with every node kind: tokens(render d) = pre-order events of d
+C14_X7_space_only|Iora.C14.X7_space_only_text_not_reported|the boundary of the supported subset as a theorem: for every white-space run w, <n>w</n> is reported exactly as <n></n> (no Text token) and accepted
+C14_X7_all_text_refuted|Iora.C14.X7_all_text_refuted|the text clause WITHOUT the restriction (every non-empty run without < is a Text token) is false: witness <a> </a> (candidate finding FC14b)
+C14_X7_all_text_partial|Iora.C14.X7_all_text_partial|the strongest true form: every run without < that contains a byte that is not white space is reported whole in <a>raw</a>
+C14_X7_dom_built|Iora.C14.X7_dom_built|arbitrary bytes: an accepted document whose attribute values and text runs all decode IS built by DomBuilder (no other failure), and its document-order walk is the decoded token list
+C14_X7_dom_document|Iora.C14.X7_dom_of_document|a rendered document tree (every node kind) whose values decode: the DOM is built and equals the tree's own events with values entity-decoded
 """
 for _l in OBLIGATION_TABLE.strip().splitlines():
     if _l.startswith("#"):
@@ -50,7 +67,9 @@ def opt_str(o):
 NAME_START = "abcdefghijklmnopqrstuvwxyzABCDEFGHIJKLMNOPQRSTUVWXYZ_"
 NAME_CHARS = NAME_START + "0123456789-."
 PALETTE = ["a", "b", "z", "Q", "0", "7", " ", " ", "<", ">", "&", "'", '"', ";", "#", "=", "/", "]", "-", "?", "!",
-           "\u00e9", "\u0080", "\u07ff", "\u0800", "\u20ac", "\ufffd", "\ud7ff", "\ue000", "\U00010000", "\U0001f600", "\U0010ffff", "\t", "\n"]
+           "\u00e9", "\u0080", "\u07ff", "\u0800", "\u20ac", "\ufffd", "\ud7ff", "\ue000", "\U00010000", "\U0001f600", "\U0010ffff", "\t", "\n", "\r"]
+# every PALETTE character is an XML 1.0 Char (no C0 control other than TAB/LF/CR, no U+FFFE/U+FFFF): expected DOMs never depend on how a
+# reference to a non-Char code point is treated (ref_decode calls those 'unspecified')
 NAMED = {"<": "lt", ">": "gt", "&": "amp", "'": "apos", '"': "quot"}
 
 
@@ -99,6 +118,7 @@ class Gen:
         self.size = size
         self.metrics = {"depth": 0, "attrs": 0, "name": 0, "text": 0}
         self.feat = set()
+        self.chain = 0          # nesting levels forced below the root element (family deep-tree)
 
     def ws(self, lo=0, allow_nl=True):
         r = self.rng
@@ -107,6 +127,44 @@ class Gen:
         if not self.expat_safe and r.chance(1, 4):
             alphabet += "\r"
         return "".join(r.choice(alphabet) for _ in range(n)).encode()
+
+    def no_cr(self, s):
+        """CDATA / comment / PI content: free of literal CR where expat reads the document too (expat normalises CR), else CR stays"""
+        if self.expat_safe:
+            return s.replace("\r", "")
+        if "\r" in s:
+            self.feat.add("cr-literal-markup-content")
+        return s
+
+    def name(self, maxlen=8, prefix_ok=True):
+        """a name; review F6 shapes: occasionally long (up to ~40 bytes) and — where expat does not read the document — starting with
+        a colon, ending in one, or holding several colons (isNameStart accepts ':'; splitQName splits at the first)"""
+        r = self.rng
+        if r.chance(1, 25):
+            maxlen = 40
+        n = rand_name(r, maxlen, prefix_ok)
+        if prefix_ok and not self.expat_safe and r.chance(1, 8):
+            k = r.below(4)
+            if k == 0:
+                n = ":" + n
+            elif k == 1:
+                n = n + ":" + rand_name(r, 3, False) + (":" + rand_name(r, 2, False) if r.chance(1, 2) else "")
+            elif k == 2:
+                n = "::" + n
+            else:
+                n = n + ":"
+        if len(n) > 20:
+            self.feat.add("name-long")
+        if n.startswith(":"):
+            self.feat.add("name-leading-colon")
+        if n.count(":") >= 2:
+            self.feat.add("name-multi-colon")
+        return n
+
+    def after_text(self):
+        """the last thing rendered is a text node: white space emitted now would become part of it"""
+        t = self.toks[-1] if self.toks else None
+        return bool(t) and t["kind"] == "T" and t["text"][0] + t["text"][1] == len(self.out)
 
     def emit(self, b):
         self.out += b
@@ -122,6 +180,11 @@ class Gen:
     # ---- content pieces
     def text_value(self, allow_leading_ws=True):
         r = self.rng
+        if r.chance(1, 6):
+            # review F1: a text whose DECODED value is white space only.  render_text writes at least one of its characters as a
+            # reference (the raw text is then not white space only, so it is a Text token and the DOM keeps a Text node with the white space)
+            self.feat.add("text-decoded-ws-only")
+            return "".join(r.choice(" \t\n \n\r") for _ in range(r.range(1, 4)))
         n = r.choice([1, 1, 2, 3, 5, 9, 14])
         s = rand_string(r, n)
         # a text node of the supported subset has at least one non-white-space character (white space only between markup is
@@ -141,13 +204,17 @@ class Gen:
         r = self.rng
         raw = bytearray()
         prev2 = ""
-        for ch in s:
+        # decoded value white space only: one position is forced into reference form (` &#10; ` with literal blanks around it is a wanted shape)
+        force = r.below(len(s)) if s and not s.strip(" \t\n\r") else -1
+        for idx, ch in enumerate(s):
             must = "<&"
             if ch == ">" and prev2.endswith("]]"):
                 must += ">"
-            lit_ok = True
-            if ch == "\r":
+            lit_ok = idx != force
+            if ch == "\r" and self.expat_safe:      # expat normalises a literal CR; the non-expat-safe cases write it literally too
                 lit_ok = False
+            if ch == "\r" and lit_ok:
+                self.feat.add("cr-literal-text")
             piece = enc_char(r, ch, must, lit_ok, not self.expat_safe)
             if piece != ch.encode("utf-8"):
                 self.feat.add("text-ref")
@@ -161,17 +228,20 @@ class Gen:
         raw = bytearray()
         for ch in s:
             must = "<&" + quote
-            lit_ok = ch not in "\t\n\r" if self.expat_safe else ch != "\r"
+            lit_ok = ch not in "\t\n\r" if self.expat_safe else True
             piece = enc_char(r, ch, must, lit_ok, not self.expat_safe)
             if piece != ch.encode("utf-8"):
                 self.feat.add("attr-ref")
+            elif ch == "\r":
+                self.feat.add("cr-literal-attr")
             raw += piece
         return bytes(raw)
 
     # ---- nodes; each returns the DOM dump of what it rendered
-    def element(self, budget):
+    def element(self, budget, chain=0):
+        """chain > 0: this element has a descendant chain of that many further nesting levels (family deep-tree)"""
         r = self.rng
-        name = rand_name(r).encode()
+        name = self.name().encode()
         start_off = len(self.out)
         self.emit(b"<")
         n_off = len(self.out)
@@ -180,11 +250,20 @@ class Gen:
         attrs = []
         dom_attrs = []
         seen = set()
+        order = []
         na = r.choice([0, 0, 1, 1, 2, 3, 6])
+        if r.chance(1, 40):
+            na = r.range(7, 20)
         for _ in range(na):
-            an = rand_name(r, 5).encode()
+            an = self.name(5).encode()
+            if order and not self.expat_safe and r.chance(1, 8):
+                an = r.choice(order)            # duplicate attribute name: accepted, the DOM keeps both in order (expat rejects it)
             if an in seen:
-                continue
+                if self.expat_safe:
+                    continue
+                self.feat.add("attr-duplicate-name")
+            else:
+                order.append(an)
             seen.add(an)
             self.emit(self.ws(lo=1))
             a_off = len(self.out)
@@ -207,6 +286,8 @@ class Gen:
         self.metrics["attrs"] = max(self.metrics["attrs"], len(attrs))
         if attrs:
             self.feat.add("attrs")
+        if len(attrs) > 6:
+            self.feat.add("attrs-more-than-6")
         if b":" in name:
             self.feat.add("prefix")
         w = self.ws()
@@ -217,6 +298,10 @@ class Gen:
         self.metrics["depth"] = max(self.metrics["depth"], self.depth)
         kids = []
         nk = 0 if budget <= 0 else r.choice([0, 1, 1, 2, 3, 4])
+        if chain > 0:
+            nk = max(nk, r.choice([1, 1, 2, 3]))
+        if self.depth > 5:
+            self.feat.add("depth-more-than-5")
         if nk == 0 and r.chance(2, 3):
             self.emit(b"/>")
             self.tok(kind="Em", name=(n_off, len(name)), attrs=attrs, sc=1, depth=self.depth, off=start_off)
@@ -225,7 +310,7 @@ class Gen:
             return "E:%s{%s}[]" % (hexs(name), ",".join("%s=%s" % (hexs(a), hexs(v)) for a, v in dom_attrs))
         self.emit(b">")
         self.tok(kind="S", name=(n_off, len(name)), attrs=attrs, depth=self.depth, off=start_off)
-        kids = self.children(nk, budget - 1)
+        kids = self.children(nk, budget - 1, chain=chain)
         e_off = len(self.out)
         self.emit(b"</")
         en_off = len(self.out)
@@ -236,18 +321,24 @@ class Gen:
         self.depth -= 1
         return "E:%s{%s}[%s]" % (hexs(name), ",".join("%s=%s" % (hexs(a), hexs(v)) for a, v in dom_attrs), ";".join(kids))
 
-    def children(self, nk, budget, top=False):
+    def children(self, nk, budget, top=False, chain=0):
         r = self.rng
         kids = []
         prev_text = True       # no formatting white space right after the start tag unless followed by markup (handled below)
         kinds = []
         for _ in range(nk):
             k = r.choice(["elem", "elem", "elem", "text", "text", "cdata", "comment", "pi"])
-            if top and (k in ("text", "cdata") or (k == "elem" and (self.expat_safe or r.chance(2, 3)))):
+            if top and k in ("text", "cdata") and not self.expat_safe and r.chance(1, 2):
+                # review F6: text / CDATA outside the root in a VALID stream (accepted by this parser: balance is its only structural rule)
+                self.feat.add("top-level-" + k)
+            elif top and (k in ("text", "cdata") or (k == "elem" and (self.expat_safe or r.chance(2, 3)))):
                 k = r.choice(["comment", "pi"])
-            if k == "text" and kinds and kinds[-1] == "text":
-                k = "elem"
+            if k == "text" and (kinds and kinds[-1] == "text" or not kinds and self.after_text()):
+                k = "elem" if not top else "comment"
             kinds.append(k)
+        ci = r.below(len(kinds)) if chain > 0 and kinds else -1
+        if ci >= 0:
+            kinds[ci] = "elem"
         for i, k in enumerate(kinds):
             # formatting white space is only put between two pieces of markup (it would otherwise be part of a text node)
             if k != "text" and (i == 0 or kinds[i - 1] != "text") and r.chance(1, 2):
@@ -255,7 +346,7 @@ class Gen:
                 self.emit(w)
                 self.feat.add("ws-between-markup")
             if k == "elem":
-                kids.append(self.element(budget))
+                kids.append(self.element(budget, chain - 1 if i == ci else 0))
             elif k == "text":
                 s = self.text_value()
                 raw = self.render_text(s)
@@ -265,7 +356,7 @@ class Gen:
                 self.metrics["text"] = max(self.metrics["text"], len(raw))
                 kids.append("T:" + hexs(s.encode("utf-8")))
             elif k == "cdata":
-                s = rand_string(r, r.choice([0, 1, 3, 8])).replace("\r", "")
+                s = self.no_cr(rand_string(r, r.choice([0, 1, 3, 8])))
                 while "]]>" in s:
                     s = s.replace("]]>", "]]")
                 b = s.encode("utf-8")
@@ -277,7 +368,7 @@ class Gen:
                 kids.append("C:" + hexs(b))
                 self.feat.add("cdata")
             elif k == "comment":
-                s = rand_string(r, r.choice([0, 1, 3, 8])).replace("\r", "")
+                s = self.no_cr(rand_string(r, r.choice([0, 1, 3, 8])))
                 while "--" in s:
                     s = s.replace("--", "-")
                 if s.endswith("-"):
@@ -291,13 +382,13 @@ class Gen:
                 kids.append("M:" + hexs(b))
                 self.feat.add("comment")
             else:
-                target = rand_name(r, 5, prefix_ok=False).encode()
+                target = self.name(5, prefix_ok=False).encode()
                 if target.lower().startswith(b"xml"):
                     target = b"p" + target
-                s = rand_string(r, r.choice([0, 0, 2, 6])).replace("\r", "")
+                s = self.no_cr(rand_string(r, r.choice([0, 0, 2, 6])))
                 while "?>" in s:
                     s = s.replace("?>", "?")
-                data = ((self.ws(lo=1) + s.encode("utf-8")) if s.strip(" \t\n") else b"")
+                data = ((self.ws(lo=1) + s.encode("utf-8")) if s.strip(" \t\n\r") else b"")
                 off = len(self.out)
                 self.emit(b"<?")
                 n_off = len(self.out)
@@ -324,13 +415,22 @@ class Gen:
             self.feat.add("xmldecl")
             self.metrics["name"] = max(self.metrics["name"], 3)
         dom += self.children(r.choice([0, 0, 1, 2]), 0, top=True)
-        self.emit(self.ws())
+        if not self.after_text():
+            self.emit(self.ws())
         root_name_pos = len(self.toks)
         if r.chance(1, 4):
             off = len(self.out)
             kw = r.choice([b"DOCTYPE", b"DOCTYPE", b"doctype", b"DocType"]) if not self.expat_safe else b"DOCTYPE"
-            body = r.choice([b" r", b" r SYSTEM \"r.dtd\"", b" r [<!ELEMENT r ANY>]", b" r [ <!ATTLIST r a CDATA #IMPLIED> <!ELEMENT r ANY> ]",
-                             b" r PUBLIC \"-//X//Y\" \"u\" [\n<!-- c -->\n]"])
+            # review F2: the byte(s) right after the keyword are drawn (the keyword's word boundary is its own white-space test in the header)
+            lead = self.ws(lo=1)
+            if not self.expat_safe and r.chance(1, 2):
+                lead = r.choice([b"\r", b"\r\n", b"\t", b"\n", b"\r "]) + self.ws()
+            if lead[:1] == b"\r":
+                self.feat.add("doctype-cr-after-keyword")
+            elif lead[:1] != b" ":
+                self.feat.add("doctype-tab-or-nl-after-keyword")
+            body = lead + r.choice([b"r", b"r SYSTEM \"r.dtd\"", b"r [<!ELEMENT r ANY>]", b"r [ <!ATTLIST r a CDATA #IMPLIED> <!ELEMENT r ANY> ]",
+                                    b"r PUBLIC \"-//X//Y\" \"u\" [\n<!-- c -->\n]"])
             self.emit(b"<!" + kw)
             t_off = len(self.out)
             self.emit(body + b">")
@@ -338,9 +438,10 @@ class Gen:
             self.emit(self.ws())
             self.feat.add("doctype")
             self.doctype = True
-        dom.append(self.element(self.size))
+        dom.append(self.element(self.size, self.chain))
         dom += self.children(r.choice([0, 0, 1]), 0, top=True)
-        self.emit(self.ws())
+        if not self.after_text():
+            self.emit(self.ws())
         return "doc[%s]" % ";".join(dom)
 
 
@@ -376,9 +477,27 @@ def expected_lines(doc, toks, dom):
 REF = re.compile(rb"&([^;]*);")
 
 
-def ref_decode(raw):
-    """-> (bytes | None, status): status 'ok', 'error' (must be rejected), 'unspecified' (ill-formed numeric reference whose
-    treatment the property leaves open: empty digit string, value that does not fit 32 bits)"""
+def is_xml_char(cp):
+    """XML 1.0 production [2] Char ::= #x9 | #xA | #xD | [#x20-#xD7FF] | [#xE000-#xFFFD] | [#x10000-#x10FFFF]"""
+    return cp in (0x9, 0xA, 0xD) or 0x20 <= cp <= 0xD7FF or 0xE000 <= cp <= 0xFFFD or 0x10000 <= cp <= 0x10FFFF
+
+
+NUMREF = re.compile(rb"&#(?:[xX]([0-9a-fA-F]{1,8})|([0-9]{1,10}));")
+
+
+def has_non_char_ref(raw):
+    """some numeric reference in `raw` denotes a code point that would encode (no surrogate, <= 0x10FFFF) but is not an XML Char"""
+    for m in NUMREF.finditer(raw):
+        cp = int(m.group(1), 16) if m.group(1) is not None else int(m.group(2))
+        if cp <= 0x10FFFF and not 0xD800 <= cp <= 0xDFFF and not is_xml_char(cp):
+            return True
+    return False
+
+
+def ref_decode(raw, strict_char=True):
+    """-> (bytes | None, status): status 'ok', 'error' (must be rejected), 'unspecified' (numeric reference whose treatment the
+    property leaves open: empty digit string, value that does not fit 32 bits, or — review F5 — a code point that encodes but is
+    outside the XML 1.0 Char production, e.g. &#0; &#x1; &#xFFFE;: a stricter tree that rejects those is spec-correct)"""
     out = bytearray()
     i = 0
     while i < len(raw):
@@ -412,6 +531,8 @@ def ref_decode(raw):
                 return None, "unspecified"
             if cp > 0x10FFFF or 0xD800 <= cp <= 0xDFFF:
                 return None, "error"
+            if strict_char and not is_xml_char(cp):
+                return None, "unspecified"
             out += chr(cp).encode("utf-8")
         else:
             return None, "error"
@@ -627,6 +748,10 @@ def monitor_scalar(op, got, stats=None):
             return "X5: decodeEntities(%r) = %s, reference says it must be rejected" % (raw, got)
         if st == "unspecified" and stats is not None:
             stats["unspecified_numeric_refs"] += 1
+            # strings whose ONLY questionable part is a reference to a non-Char code point: does the implementation take them?
+            if has_non_char_ref(raw) and ref_decode(raw, strict_char=False)[1] == "ok":
+                k = "non_char_refs_accepted" if got.startswith("ok ") else "non_char_refs_rejected"
+                stats[k] = stats.get(k, 0) + 1
     elif t[0] == "utf8":
         cp = int(t[1])
         want = "fail" if (cp > 0x10FFFF or 0xD800 <= cp <= 0xDFFF) else "ok " + hexs(chr(cp).encode("utf-8"))
@@ -764,6 +889,8 @@ def expat_compare(doc, dom_line):
             return "\0"
         return "P:%s:%s" % (hexs(name), hexs(data))
     got = re.sub(r"P:([0-9a-f]+):([0-9a-f]+|-)", fix_pi, dom_line)
+    # a text whose decoded value is white space only (`&#32;`): expat_dump cannot tell it from formatting white space and drops it; same here
+    got = re.sub(r"(?<![0-9a-f=:])T:((?:20|09|0a|0d)+)(?![0-9a-f])", "\0", got)
     got = got.replace("\0;", "").replace(";\0", "").replace("\0", "")
     return got == want, got, want
 
@@ -883,6 +1010,16 @@ def helpers_of_dump(dom):
     return ";".join(out)
 
 
+def fitting_opts(rng, metrics, ntoks, feats=None):
+    """review F6: NON-DEFAULT options under which the rendered document still fits, each limit 0..3 above what the document needs
+    (k = 0: the limit is met exactly); maxTotalTokens is 0 (unbounded) or above the token count (the budget test precedes the Eof call)"""
+    k = lambda: rng.choice([0, 0, 1, 2, 3, 50])
+    o = (max(metrics["depth"], 0) + k(), metrics["attrs"] + k(), metrics["name"] + k(), metrics["text"] + k(), 0 if rng.chance(1, 2) else ntoks + 1 + k())
+    if feats is not None:
+        feats["options-non-default-fitting"] = feats.get("options-non-default-fitting", 0) + 1
+    return o
+
+
 def gen_tree_cases(rng, count, feats):
     cases = []
     for i in range(count):
@@ -894,9 +1031,39 @@ def gen_tree_cases(rng, count, feats):
         exp = expected_lines(doc, g.toks, dom)
         for f in g.feat:
             feats[f] = feats.get(f, 0) + 1
-        cases.append(case_for(doc, DEFAULT_OPTS, "tree", expect=exp, expat=(i % 4 != 3), metrics=dict(g.metrics, tokens=len(g.toks)),
+        opts = fitting_opts(rng, g.metrics, len(g.toks), feats) if i % 3 == 1 else DEFAULT_OPTS
+        cases.append(case_for(doc, opts, "tree", expect=exp, expat=(i % 4 != 3), metrics=dict(g.metrics, tokens=len(g.toks)),
                               extra_ops=[("saxm", rand_mask(rng)), ("domh",), ("dom0",)] if i % 2 == 0 else [("saxm", rand_mask(rng))]))
     return cases
+
+
+def gen_deep_tree_cases(rng, count, feats):
+    """review F6: nesting 6..40 (a chain with a few siblings at every level) through the whole lockstep with expected lines"""
+    cases = []
+    for i in range(count):
+        g = Gen(rng, expat_safe=(i % 2 == 0), size=rng.choice([0, 1, 2]))
+        g.chain = rng.choice([5, 6, 7, 9, 12, 17, 25, 33, 39])
+        dom = g.document()
+        doc = bytes(g.out)
+        if len(doc) > 6000:
+            continue
+        exp = expected_lines(doc, g.toks, dom)
+        for f in g.feat:
+            feats[f] = feats.get(f, 0) + 1
+        feats["deep-tree-max-depth"] = max(feats.get("deep-tree-max-depth", 0), g.metrics["depth"])
+        opts = fitting_opts(rng, g.metrics, len(g.toks), feats) if i % 3 == 1 else DEFAULT_OPTS
+        cases.append(case_for(doc, opts, "deep-tree", expect=exp, expat=(i % 2 == 0), metrics=dict(g.metrics, tokens=len(g.toks)),
+                              extra_ops=[("saxm", rand_mask(rng)), ("domh",), ("dom0",)] if i % 2 == 0 else [("saxm", rand_mask(rng))]))
+    return cases
+
+
+SWEEP_DOC = b'<?xml version="1.0"?><!DOCTYPE r><r a="1"><e/>t<![CDATA[c]]><!--m--><?p d?></r>'
+
+
+def gen_sax_mask_sweep():
+    """review F6: every one of the 512 subsets of the nine SaxCallbacks members, on a document that has every token kind that can occur
+    (Dt S E Em T Cd Cm Pi; `<?xml` is reported as Pi, XmlDecl never occurs)"""
+    return [case_for(SWEEP_DOC, DEFAULT_OPTS, "sax-mask-sweep", extra_ops=[("saxm", m)]) for m in range(512)]
 
 
 def gen_large_tree_cases(rng, count, feats):
@@ -961,14 +1128,16 @@ def gen_limit_cases(rng, count):
     return cases
 
 
-MUT_BYTES = b"<>/=\"'&;!?-[] \n\ta:#x0]\x00\x80\xff"
+MUT_BYTES = b"<>/=\"'&;!?-[] \n\t\ra:#x0]\x00\x80\xff"
 
 
 def gen_mutation_cases(rng, ndocs, per_doc_cap, all_bytes_for=0):
     """All truncations and single-byte substitutions/deletions/insertions (from a set of structurally interesting bytes) of small documents."""
     seeds = [b"<a/>", b"<a>x</a>", b"<a b=\"1\">t</a>", b"<a><b/></a>", b"<!--c--><a/>", b"<?p d?><a/>", b"<a><![CDATA[x]]></a>",
              b"<!DOCTYPE a [<!ENTITY e \"v\">]><a>&e;</a>", b"<a>&lt;&#65;&#x42;</a>", b"<a b='&amp;' c=\"d\"/>", b"<x:a x:b=\"1\"></x:a>",
-             b"<a> <b> x </b> </a>", b"<a>\n  t\n</a>", b"<a><b></b><c></c></a>", b"<?xml version=\"1.0\"?>\n<r/>"]
+             b"<a> <b> x </b> </a>", b"<a>\n  t\n</a>", b"<a><b></b><c></c></a>", b"<?xml version=\"1.0\"?>\n<r/>",
+             # review F1 (decoded value white space only) and F2 (CR / CRLF formatted documents, white space right after the DOCTYPE keyword)
+             b"<a>&#32;</a>", b"<a> &#10; </a>", b"<!DOCTYPE\r\nr><r/>", b"<!DOCTYPE\tr [<!ELEMENT r ANY>]>\r\n<r/>", b"<a\r\nb='1'\r\n/>", b"<a>\r\n<b/>\r\n</a>"]
     docs = list(seeds)
     while len(docs) < ndocs:
         g = Gen(rng, expat_safe=False, size=1)
@@ -1156,7 +1325,8 @@ def gen_entity_cases(rng, count):
              b"&#xD7FF;", b"&#xD800;", b"&#xDFFF;", b"&#xE000;", b"&#x10FFFF;", b"&#x110000;", b"&#1114111;", b"&#1114112;", b"&#0;", b"&#x0;",
              b"&#4294967361;", b"&#x100000041;", b"&#xFFFFFFFF;", b"&#4294967295;", b"&#4294967296;", b"a&amp", b"&amp;&", b"&lt", b"&LT;", b"&Amp;",
              b"&nbsp;", b"&#x41", b"&# 65;", b"&#+65;", b"&#x 41;", b"&lt;;", b"&&amp;;", b"&#00000000000000000065;", b"&#x000000000000000041;",
-             b"&amp;lt;", b"x&#x20AC;y", b"&#128512;", b"&#x1F600;", b"&e;", b"&xxe;", b"&#x80;", b"&#x7FF;", b"&#x800;", b"&#xFFFF;", b"&#x10000;", b"&#127;", b"&#128;"]
+             b"&amp;lt;", b"x&#x20AC;y", b"&#128512;", b"&#x1F600;", b"&e;", b"&xxe;", b"&#x80;", b"&#x7FF;", b"&#x800;", b"&#xFFFF;", b"&#x10000;", b"&#127;", b"&#128;",
+             b"&#x1;", b"&#8;", b"&#x9;", b"&#xA;", b"&#xB;", b"&#xC;", b"&#xD;", b"&#xE;", b"&#x1F;", b"&#x20;", b"&#xFFFD;", b"&#xFFFE;", b"a&#0;b", b"&#31;&#32;"]
     for f in fixed:
         cases.append({"cat": "entity", "ops": ["dec %s" % hexs(f), "dec0 %s" % hexs(f)], "raw": f})
     names = [b"lt", b"gt", b"amp", b"apos", b"quot", b"nbsp", b"LT", b"l", b"ltt", b"", b"#", b"#x", b"amp ", b"e", b"xxe", b"copy"]
@@ -1199,6 +1369,170 @@ def gen_xxe_cases(rng):
     return [case_for(d, DEFAULT_OPTS, "xxe", extra_ops=[("dom0",), ("domh",)]) for d in docs]
 
 
+# ------------------------------------------------------------------ second build: IORA_XML_THROW_ON_ERROR=1 (review F4 item 2)
+THROW_DEFINE = "IORA_XML_THROW_ON_ERROR=1"
+THROW_OPS = ("tpull", "tsax", "tdom")
+THROW_CATS = ("tree", "deep-tree", "limit", "limit-random", "mutation", "mutated-tree", "random", "default-boundary", "xxe")
+NAME_KINDS = ("badStartName", "badEndName", "badAttrName", "badPiTarget")
+ENTITY_KINDS = ("unterminatedEntity", "badCharRef", "unknownEntity")
+NAME_RUN_RE = re.compile(rb"[A-Za-z_:][-A-Za-z0-9_:.]*")
+NAME_BYTES = frozenset(b"abcdefghijklmnopqrstuvwxyzABCDEFGHIJKLMNOPQRSTUVWXYZ_:-.0123456789")
+ERR_AT_RE = re.compile(r"(\w+) @(\d+):(\d+):(\d+)")
+
+
+def name_run_before(doc, o):
+    """length of the maximal run of name characters that ends right before offset o"""
+    s = min(o, len(doc))
+    e = s
+    while s > 0 and doc[s - 1] in NAME_BYTES:
+        s -= 1
+    return e - s
+
+
+def name_too_long_at(doc, opts, kind, o):
+    """Independent of the code: with fail() throwing, the FIRST failure is the one that is reported.  readName() fails with `name too long`
+    before its caller can fail with `invalid start tag name` / end tag / attribute / PI target.  The caller's error sits at the cursor after
+    the name that was read: it is the over-long-name case exactly when the run of name characters ending there is longer than maxNameLength
+    (a caller error at a position where no name could start has a run of 0 — or, after an element name that fitted, one within the limit)."""
+    return kind in NAME_KINDS + ("nameTooLong",) and name_run_before(doc, o) > opts[2]
+
+
+def throwing_case(c):
+    o = opt_str(tuple(c["opts"]))
+    h = hexs(c["doc"])
+    return {"cat": "throwing", "src": c["cat"], "ops": ["%s %s %s" % (op, o, h) for op in THROW_OPS], "doc": c["doc"], "opts": tuple(c["opts"]),
+            "build": THROW_DEFINE}
+
+
+def select_throwing(rng, cases, target):
+    """A sample of the generated documents for the second build: every structured case (tree / limit / boundary families) in which some run
+    of name characters is longer than maxNameLength (that is where the two builds differ), up to target/2 such mutation / random cases,
+    and a random sample of the rest up to `target`."""
+    seen = set()
+    pool = []
+    for c in cases:
+        if c.get("cat") in THROW_CATS and "doc" in c and len(c["doc"]) <= 4096:
+            k = (tuple(c["opts"]), c["doc"])
+            if k not in seen:
+                seen.add(k)
+                pool.append(c)
+    hot_s, hot_o, rest = [], [], []
+    for c in pool:
+        longest = max([len(x) for x in NAME_RUN_RE.findall(c["doc"])] or [0])
+        if longest > c["opts"][2]:
+            (hot_s if c["cat"] in ("tree", "deep-tree", "limit", "limit-random", "default-boundary", "xxe") else hot_o).append(c)
+        else:
+            rest.append(c)
+    rng.shuffle(hot_o)
+    hot_o = hot_o[:target // 2]
+    rng.shuffle(rest)
+    rest = rest[:max(target // 4, target - len(hot_s) - len(hot_o))]
+    return [throwing_case(c) for c in hot_s + hot_o + rest]
+
+
+def monitor_throwing(c, tl, base):
+    """The three answers of the throwing build (implementation output only) against the non-throwing answers for the same options and
+    document (`base`: pull / sax / dom lines of the first lockstep run, possibly absent) and against name_too_long_at()."""
+    bad = []
+    doc, opts = c["doc"], tuple(c["opts"])
+    tp, ts, td = tl.get("tpull"), tl.get("tsax"), tl.get("tdom")
+    # (iv) nothing escapes the try/catch of the op, no crash, the build really is the throwing one
+    for nm, l in (("tpull", tp), ("tsax", ts), ("tdom", td)):
+        if l is None:
+            continue
+        if l.startswith("crash:") or l == "bad-op" or (l.startswith("throw") and not (nm == "tdom" and re.match(r"^throw \w+ @\d+:\d+:\d+$", l))):
+            bad.append("X2/UB(throwing build): %s: %s" % (nm, l[:80]))
+        if "nonterminating" in l or "next-after-end" in l or "stopped-without-eof" in l or "WRONG-CALLBACK" in l or "unknownMessage" in l or "without-error" in l:
+            bad.append("X3/X6(throwing build): %s: %s" % (nm, l[-80:]))
+    if bad or tp is None:
+        return bad
+    m = re.match(r"^(.*) thrown=([01])$", tp)
+    if not m:
+        return ["harness output not understood (tpull): %s" % tp[-80:]]
+    stripped, thrown = m.group(1), m.group(2)
+    is_err = " | err " in stripped
+    # (ii) an exception was caught exactly when the run ended in an error
+    if (thrown == "1") != is_err:
+        bad.append("X6(throwing build): thrown=%s but the run ended with `%s`" % (thrown, stripped.rsplit(" | ", 1)[1][:60]))
+    body, fin = stripped.rsplit(" | ", 1)
+    em = ERR_AT_RE.match(fin[4:]) if is_err else None
+    tkind, toff = (em.group(1), int(em.group(2))) if em else (None, None)
+    # (i) which failure is reported: readName's own `name too long` comes first exactly where an over-long name was read
+    if em:
+        ntl = name_too_long_at(doc, opts, tkind, toff)
+        if ntl and tkind != "nameTooLong":
+            bad.append("X4(throwing build): a name of %d bytes with maxNameLength %d ends at offset %d: readName's `name too long` must be the exception, "
+                       "the reported error is %s" % (name_run_before(doc, toff), opts[2], toff, tkind))
+        if not ntl and tkind == "nameTooLong":
+            bad.append("X4(throwing build): nameTooLong at offset %d but the name that ends there has %d bytes (maxNameLength %d)" % (toff, name_run_before(doc, toff), opts[2]))
+    pull = base.get("pull")
+    if pull is not None and stripped != pull:
+        ok = False
+        if tkind == "nameTooLong" and " | err " in pull:
+            pbody, pfin = pull.rsplit(" | ", 1)
+            pm = ERR_AT_RE.match(pfin[4:])
+            ok = bool(pm) and pm.group(1) in NAME_KINDS and pbody == body and pfin[4 + len(pm.group(1)):] == fin[4 + len(tkind):]
+        if not ok:
+            bad.append("X6(throwing build): the pull run with IORA_XML_THROW_ON_ERROR=1 differs from the default build: got %s want %s"
+                       % (first_diff(stripped, pull), first_diff(pull, stripped)))
+    # tsax: the same events and the same outcome as tpull
+    if ts is not None:
+        sm = re.match(r"^(.*) \| (.*) thrown=([01])$", ts)
+        if not sm:
+            bad.append("harness output not understood (tsax): %s" % ts[-80:])
+        else:
+            want_fin = ("fail " + fin.split(" stack=")[0]) if is_err else "ok"
+            if sm.group(1) != body:
+                bad.append("X6(throwing build): SAX events differ from the pull tokens: got %s want %s" % (first_diff(sm.group(1), body), first_diff(body, sm.group(1))))
+            if sm.group(2) != want_fin:
+                bad.append("X6(throwing build): runSax ended with `%s`, the pull run with `%s`" % (sm.group(2)[:60], want_fin[:60]))
+            if (sm.group(3) == "1") != is_err:
+                bad.append("X6(throwing build): runSax thrown=%s but the pull run ended with `%s`" % (sm.group(3), fin[:40]))
+    # (iii) tdom: `throw K @pos` exactly when the tokenizer fails before an entity fails, else what the default build's DOM is
+    if td is not None:
+        dom = base.get("dom")
+        if dom is not None:
+            dm = ERR_AT_RE.match(dom[5:]) if dom.startswith("null ") else None
+            if dm and dm.group(1) not in ENTITY_KINDS + ("domUnbalancedEnd", "domUnclosed"):
+                k = "nameTooLong" if name_too_long_at(doc, opts, dm.group(1), int(dm.group(2))) else dm.group(1)
+                want = "throw " + k + dom[5 + len(dm.group(1)):]
+            else:
+                want = dom
+            if td != want:
+                bad.append("X6(throwing build): DomBuilder::build with IORA_XML_THROW_ON_ERROR=1 = %s, the default build's answer (%s) calls for %s" % (td[:80], dom[:60], want[:80]))
+        if td.startswith("throw "):
+            if not is_err or td[6:] != fin[4:].split(" stack=")[0]:
+                bad.append("X6(throwing build): DomBuilder::build threw with %s but the pull run ended with `%s`" % (td[6:60], fin[:60]))
+        elif td.startswith("null "):
+            if td.split()[1] not in ENTITY_KINDS:
+                bad.append("X6(throwing build): DomBuilder::build returned %s without an exception (only entity decoding fails without fail())" % td[:60])
+        elif is_err:
+            bad.append("X6(throwing build): a document was built although the pull run ended with `%s`" % fin[:60])
+    return bad
+
+
+FC14B_DOC = b"<a><b>x</b> <i>y</i></a>"
+FC14B_WHAT = ("white-space-only character data between markup is not reported: in mixed content <a><b>x</b> <i>y</i></a> the space between the two "
+              "elements yields no Text token and no DOM node (XML 1.0 2.10 asks a processor to pass all character data on); same root cause as F29")
+
+
+def replay_fc14b(ctx, hb):
+    """Candidate finding FC14b (review F3): replay the witness on the real code.  The check's verdict is `boundary of the supported subset`
+    (theorems X7_space_only_text_not_reported / X7_all_text_refuted / _partial); the KNOWN-FINDING line is printed only when
+    KNOWN_FINDINGS.txt lists it (or VERIF_KNOWN_FINDINGS_EXTRA, for trying out the proposed line) and it still reproduces."""
+    op = "pull %s %s" % (opt_str(DEFAULT_OPTS), hexs(FC14B_DOC))
+    out, rc, err = ctx.run_lines([hb], [op], timeout=60)
+    got = out[0] if out else ""
+    kinds = [t.split(" ", 1)[0] for t in got.rsplit(" | ", 1)[0].split(";")] if " | " in got else []
+    reproduces = kinds == ["S", "S", "T", "E", "S", "T", "E", "E"] and " | eof " in got
+    listed = any(d.get("kind") == "finding" and d.get("property") == ID and d.get("id") == "FC14b" for d in load_known_findings())
+    listed = listed or "FC14b" in os.environ.get("VERIF_KNOWN_FINDINGS_EXTRA", "")
+    ctx.extra["candidate_finding_FC14b"] = {"witness": FC14B_DOC.decode(), "token_kinds_observed": kinds, "reproduces": reproduces, "listed": listed, "what": FC14B_WHAT}
+    if reproduces and listed:
+        ctx.known_lines.append("KNOWN-FINDING: property=C14 id=FC14b key=ws-only-text-between-elements " + FC14B_WHAT)
+    return reproduces
+
+
 # ------------------------------------------------------------------ run
 def load_corpus():
     d = os.path.join(os.path.dirname(os.path.dirname(os.path.abspath(__file__))), "corpus", ID)
@@ -1223,24 +1557,33 @@ def replay(ctx):
     ops = obj.get("ops") or []
     ctx.translate(["xml"])
     ctx.lake_build(MODULES)
-    hb = ctx.build_harness("harness/c14_xml.cpp", sanitize=True)
+    throwing = any(o.split(" ", 1)[0] in THROW_OPS for o in ops)
+    if throwing:          # tpull / tsax / tdom exist only in the build whose fail() throws
+        hb = ctx.build_harness("harness/c14_xml.cpp", name="c14_xml_throw", sanitize=True, defines=[THROW_DEFINE])
+    else:
+        hb = ctx.build_harness("harness/c14_xml.cpp", sanitize=True)
     if not hb or not ops:
         print("replay: nothing to run (kind=%s)" % obj.get("kind"))
         return 1 if ctx.violations else 0
     (c, impl, model), = ctx.lockstep("xml", hb, [{"cat": "replay", "ops": ops}])
     fails = []
     docs = {}
+    tdocs = {}
     for o, a, b in zip(ops, impl, model):
         print("op    %s\n impl  %s\n model %s" % (o[:200], a[:300], b[:300]))
         t = o.split()
         if t[0] in ("pull", "sax", "dom") and len(t) == 7:
             docs.setdefault((tuple(int(x) for x in t[1:6]), t[6]), {})[t[0]] = a
+        elif t[0] in THROW_OPS and len(t) == 7:
+            tdocs.setdefault((tuple(int(x) for x in t[1:6]), t[6]), {})[t[0]] = a
         elif t[0] in ("dec", "utf8"):
             f = monitor_scalar(o, a)
             if f:
                 fails.append(f)
     for (o, h), lines in docs.items():
         fails += monitor_generic(unhex(h), o, lines.get("pull"), lines.get("sax"), lines.get("dom"))
+    for (o, h), lines in tdocs.items():
+        fails += monitor_throwing({"doc": unhex(h), "opts": o}, lines, {})
     exp = obj.get("expected_by_generator") or obj.get("expect")
     if exp:
         for o, a, e in zip(ops, impl, exp):
@@ -1267,21 +1610,26 @@ def run(ctx: Ctx):
         ctx.audit(MODULES, OBLIGATIONS)
         if not quick:
             ctx.leanchecker(MODULES + ["IoraModel.Lemmas.XmlClosed", "IoraModel.Lemmas.Xml", "IoraModel.Lemmas.XmlExplicit", "IoraModel.Lemmas.XmlEntities", "IoraModel.Lemmas.XmlDom",
-                                       "IoraModel.Lemmas.XmlRender", "IoraModel.Lemmas.XmlTransfer", "IoraModel.Model.Xml"])
+                                       "IoraModel.Lemmas.XmlRender", "IoraModel.Lemmas.XmlContent", "IoraModel.Lemmas.XmlTransfer", "IoraModel.Lemmas.XmlDecodeReads", "IoraModel.Lemmas.XmlDtor", "IoraModel.Lemmas.XmlThrow", "IoraModel.Model.Xml"])
     else:
         ctx.cov["obligations"] = len(OBLIGATIONS)
     hb = ctx.build_harness("harness/c14_xml.cpp", sanitize=True)
+    # second build of the SAME harness source with fail() throwing (review F4 item 2); its own binary name
+    hbt = ctx.build_harness("harness/c14_xml.cpp", name="c14_xml_throw", sanitize=True, defines=[THROW_DEFINE]) if hb else None
     dist = {}
     feats = {}
+    meas = {"error_kinds": {}, "token_kinds": {}, "masks": set(), "dom_outcomes": {}}
     stats = {"accepted": 0, "rejected": 0, "expat_compared": 0, "expat_rejected": 0, "dom_null_entity": 0, "unspecified_numeric_refs": 0,
-             "limit_reject": 0, "limit_accept": 0}
+             "limit_reject": 0, "limit_accept": 0, "non_char_refs_accepted": 0, "non_char_refs_rejected": 0}
     if hb:
         cases = load_corpus()
         cases += gen_tree_cases(rng.fork("tree"), 4000 * scale, feats)
+        cases += gen_deep_tree_cases(rng.fork("deep"), 300 * scale, feats)
+        cases += gen_sax_mask_sweep()
         cases += gen_large_tree_cases(rng.fork("large"), 3 if quick else 12, feats)
         cases += gen_limit_cases(rng.fork("limit"), 400 * scale)
         cases += gen_default_boundary_cases(rng.fork("dflt"))
-        cases += gen_mutation_cases(rng.fork("mut"), 40 * (1 if quick else 8), 1000 if quick else 3000, all_bytes_for=(2 if quick else 15))
+        cases += gen_mutation_cases(rng.fork("mut"), 44 * (1 if quick else 8), 1000 if quick else 3000, all_bytes_for=(2 if quick else 15))
         cases += gen_mutated_tree_cases(rng.fork("mtree"), 3000 * scale)
         cases += gen_random_cases(rng.fork("rand"), 4000 * scale)
         cases += gen_entity_cases(rng.fork("ent"), 1500 * scale)
@@ -1293,6 +1641,8 @@ def run(ctx: Ctx):
                 c["cat"] = "corpus-impl-only"
         impl_only = [c for c in cases if c.get("impl_only")]
         cases = [c for c in cases if not c.get("impl_only")]
+        throwing_cases = select_throwing(rng.fork("throw"), cases, 3000 * scale) if hbt else []
+        base_lines = {(c["opts"], c["doc"]): None for c in throwing_cases}
         try:
             res = ctx.lockstep("xml", hb, cases, timeout=900)
         except RuntimeError as e:
@@ -1312,10 +1662,14 @@ def run(ctx: Ctx):
             dist[cat] = dist.get(cat, 0) + 1
             fails = []
             nontrivial = True
-            if cat in ("tree", "limit", "limit-random", "mutation", "random", "xxe", "default-boundary", "mutated-tree", "observation", "real-default", "large-tree"):
+            if cat in ("tree", "limit", "limit-random", "mutation", "random", "xxe", "default-boundary", "mutated-tree", "observation", "real-default", "large-tree",
+                       "deep-tree", "sax-mask-sweep"):
                 doc = c["doc"]
                 opts = tuple(c["opts"])
-                lines = {op.split()[0]: l for op, l in zip(c["ops"], impl)}
+                lines = {op.split(" ", 1)[0]: l for op, l in zip(c["ops"], impl)}
+                measure(meas, c, lines)
+                if (opts, doc) in base_lines and base_lines[(opts, doc)] is None:
+                    base_lines[(opts, doc)] = {k: lines.get(k) for k in ("pull", "sax", "dom") if lines.get(k) is not None}
                 fails += monitor_generic(doc, opts, lines.get("pull"), lines.get("sax"), lines.get("dom"))
                 fails += monitor_extra(c, lines)
                 acc = " | eof " in (lines.get("pull") or "")
@@ -1340,9 +1694,9 @@ def run(ctx: Ctx):
                     if not c["fits"] and acc:
                         fails.append("X4: limit %s=%d not enforced (document needs %d)" % (c["limit"], c["value"], c["need"]))
                     stats["limit_accept" if acc else "limit_reject"] += 1
-                if cat in ("tree", "large-tree") and c.get("expat") and not fails and _expat is None:
+                if cat in ("tree", "large-tree", "deep-tree") and c.get("expat") and not fails and _expat is None:
                     stats["expat_unavailable"] = stats.get("expat_unavailable", 0) + 1
-                elif cat in ("tree", "large-tree") and c.get("expat") and not fails:
+                elif cat in ("tree", "large-tree", "deep-tree") and c.get("expat") and not fails:
                     r = expat_compare(doc, lines["dom"])
                     if r is None:
                         stats["expat_rejected"] += 1
@@ -1379,20 +1733,64 @@ def run(ctx: Ctx):
                                   % (c["ops"][i][:120], first_diff(a, b)[:160], first_diff(b, a)[:160]),
                                   {"broken": {"correspondence": "xml lockstep (harness/c14_xml.cpp vs Model/Xml.lean)", "detail": "first differing op index %d" % i},
                                    "ops": c["ops"], "observed": impl, "expected_by_model": model}, found_input=False)
+        # ---- the throwing build: same documents and options through tpull / tsax / tdom, model and implementation in lockstep again
+        thr = {"cases": 0, "thrown": 0, "nameTooLong": 0, "by_source": {}}
+        if hbt and throwing_cases:
+            try:
+                res2 = ctx.lockstep("xml", hbt, throwing_cases, timeout=900)
+            except RuntimeError as e:
+                print("[C14] machinery failure: the lockstep run of the throwing build did not complete (%s); no VIOLATION is reported for this" % str(e)[:300], flush=True)
+                raise
+            for c, impl, model in res2:
+                dist["throwing"] = dist.get("throwing", 0) + 1
+                thr["cases"] += 1
+                thr["by_source"][c["src"]] = thr["by_source"].get(c["src"], 0) + 1
+                tl = dict(zip(THROW_OPS, impl))
+                if tl["tpull"].endswith(" thrown=1"):
+                    thr["thrown"] += 1
+                if " | err nameTooLong @" in tl["tpull"]:
+                    thr["nameTooLong"] += 1
+                fails = monitor_throwing(c, tl, base_lines.get((c["opts"], c["doc"])) or {})
+                ctx.count_case("\n".join(c["ops"]), nontrivial=len(tl["tpull"]) > 50)
+                mism = [(i, a, b) for i, (a, b) in enumerate(zip(impl, model)) if a != b]
+                if fails:
+                    report_property(ctx, hbt, c, impl, model, fails)
+                elif mism:
+                    n_mismatch += 1
+                    if n_mismatch <= 3:
+                        i, a, b = mism[0]
+                        ctx.violation("correspondence", "model and implementation (built with %s) disagree (no property monitor fails on this case): op `%s` impl=`%s` model=`%s`"
+                                      % (THROW_DEFINE, c["ops"][i][:120], first_diff(a, b)[:160], first_diff(b, a)[:160]),
+                                      {"broken": {"correspondence": "xml lockstep, throwing build (harness/c14_xml.cpp -D%s vs Model/Xml.lean)" % THROW_DEFINE,
+                                                  "detail": "first differing op index %d" % i},
+                                       "ops": c["ops"], "harness_build": THROW_DEFINE, "observed": impl, "expected_by_model": model}, found_input=False)
+        ctx.extra["throwing_build"] = thr
         ctx.extra["lockstep_mismatches"] = n_mismatch
+        replay_fc14b(ctx, hb)
+    # review F6: measured counters (implementation output only) next to the category counts
+    dist["error_kinds"] = dict(sorted(meas["error_kinds"].items()))
+    dist["token_kinds"] = dict(sorted(meas["token_kinds"].items()))
+    dist["sax_masks_distinct"] = len(meas["masks"])
+    dist["dom_outcomes"] = dict(sorted(meas["dom_outcomes"].items()))
     ctx.extra["input_distribution"] = dist
     ctx.extra["tree_features"] = feats
     ctx.extra["outcomes"] = stats
     ctx.extra["repo_tree_sha"] = ctx.repo_tree_sha(ANCHOR_FILES)
     ctx.extra["not_proved"] = [
-        "X7 in full — text, references, CDATA, comments, PIs and DOCTYPE *inside* the rendered document: proved are the element/attribute skeleton for every "
-        "well-nested tag sequence and every forest of element trees with every formatting choice (X7_skeleton_faithful, X7_tree_faithful), the DOM of such a forest "
-        "(X7_dom_of_tree) and the white-space/text interaction of F29 at the level of next() (X7_leading_space_kept); the rest of X7 is checked differentially "
-        "(generator-rendered trees compared slice for slice with exact offsets/line/column, DOM compared with the generator's strings, expat cross-check)",
-        "line/column values of tokens and errors are tied by lockstep only (no theorem states what they should be)",
-        "reads inside decodeEntities/appendCharRef (`in[i]`, `ent[0]`, `entBody[1]`, `entBody[i]`) are modelled by list patterns, not as guarded partial reads: that they stay "
-        "in range is decided by ASan on the entity stream (exact-size heap copies), not proved; the tokenizer's reads are proved (X2)",
+        "white-space-only character data between markup is NOT reported by this parser (no Text token, no DOM node): text nodes that consist of white space only in the RAW document are "
+        "outside the supported subset of X7 (candidate finding FC14b, replayed on every run: extra.candidate_finding_FC14b). Theorems: X7_space_only_text_not_reported (what happens, for "
+        "every white-space run), X7_all_text_refuted (the unrestricted text clause is false, witness `<a> </a>`), X7_all_text_partial / X7_content_faithful (every other text run is reported "
+        "whole). In mixed content (`<p><b>x</b> <i>y</i></p>`) the inter-element space is lost; a text whose DECODED value is white space only (`&#32;`) IS reported and kept by the DOM. A "
+        "4-line change of skipWhitespaceOutsideText that reports white space inside elements passes the repository's XML tests but adds Text tokens/nodes to every pretty-printed document "
+        "and was neither proposed as a fix nor modelled in this round",
+        "X7 in full is proved for rendered documents whose text runs are followed directly by markup or the end (TextOk) and whose CDATA/comment/PI bodies do not contain their terminator; "
+        "entity references inside text/attribute values are opaque bytes for the tokenizer theorems and are decoded by the X5 theorems (X7_dom_of_document composes the two)",
+        "line/column values of tokens and errors are tied by lockstep (and the generator's independent line/column computation) only: no theorem states what they should be",
+        "DomBuilder::build / runSax in the throwing build (the exception leaves them): modelled (domBuildT) and tied by the second lockstep; the theorem about the two builds (X9) is about "
+        "the pull API; every X1-X7 theorem quantifies over Options including `throwing`, so each holds for both builds",
         "Node::getTextContent/getAttribute/childByName: modelled and tied by lockstep plus a monitor that recomputes them from the DOM dump; no theorem beyond their definitions",
+        "message tails of the two composed messages (`mismatched end tag - expected </a> but got </b>`, the list of unclosed elements): only the prefix is compared",
+        "MonotonicArena (xml.hpp:129-186) is used by nothing in the header and run by nothing here; `makeArray` multiplies `sizeof(T) * count` without an overflow check (observation, dead code)",
         "documents whose token list is longer than ~10^5 entries (the model driver keeps one stack frame per token) and the DOM of a single text/attribute value near 1 MiB (the "
         "model's decoder appends byte by byte to a list) are run on the real code only (`impl-only` cases with answers derived from the document's construction)"]
     ctx.extra["observations"] = [
@@ -1402,13 +1800,40 @@ def run(ctx: Ctx):
         "maxTextSpan is documented as `Max contiguous text span in bytes`: it binds Text tokens and attribute values (Token.Limits); CDATA sections, comments, PI data and DOCTYPE are not subject to it "
         "(a 1 MiB+1 CDATA section and comment are accepted with the defaults: impl-only case)",
         "`<?xml ...?>` is reported as a ProcessingInstruction named xml; TokenKind::XmlDecl is never produced (RunOk.kinds)",
-        "Options::permissive and Options::namespaceProcessing are read nowhere in the header (Gen.Xml.unusedOptionFields)"] + [w for w, _ in OBSERVATION_DOCS]
+        "Options::permissive and Options::namespaceProcessing are read nowhere in the header (Gen.Xml.unusedOptionFields)",
+        ("numeric references to code points outside the XML Char production (&#0;, &#x1;, &#xFFFE;) are accepted and encoded; the reference treats them as unspecified"
+         if stats["non_char_refs_accepted"] and not stats["non_char_refs_rejected"] else
+         "numeric references to code points outside the XML Char production (&#0;, &#x1;, &#xFFFE;): %d accepted, %d rejected in this run; the reference treats them as unspecified"
+         % (stats["non_char_refs_accepted"], stats["non_char_refs_rejected"]))] + [w for w, _ in OBSERVATION_DOCS]
     ctx.assumptions += ["inputs shorter than 2^31 bytes (size_t arithmetic and readDoctype's `int bracket` do not wrap); option values < 2^64",
                         "stack depth: with FC14a repaired nothing in xml.hpp recurses per nesting level (tokenizer, DomBuilder::build and ~Node are iterative); a CALLER that walks the DOM recursively "
                         "must bound maxDepth itself (the default 256 is safe)",
-                        "IORA_XML_THROW_ON_ERROR=0 (the default); with 1, fail() throws instead of returning false"]
+                        "both builds are covered: IORA_XML_THROW_ON_ERROR=0 (default, Gen.Xml.throwOnErrorDefault) and =1 (second harness build, `Options.throwing` in the model: fail() records the error, then throws)"]
     return ctx.finish(level="proof", rule="a case = one document (or one entity string / code point) with one option setting, run through the real pull, SAX and DOM interfaces; "
                       "distinct = distinct op lists; non-trivial = the document is accepted or yields at least one token before the error")
+
+
+ERRKIND_RE = re.compile(r" \| err (\w+) @")
+TOKKIND_RE = re.compile(r"(?:^|;)(\w+) n=")
+
+
+def measure(meas, c, lines):
+    """review F6: what the IMPLEMENTATION answered — error kind of every rejected pull line, kinds of the tokens in every pull line, callback
+    masks that ran, DOM outcomes (doc / null by error kind)"""
+    def bump(d, k, n=1):
+        d[k] = d.get(k, 0) + n
+    pull = lines.get("pull")
+    if pull is not None:
+        m = ERRKIND_RE.search(pull[-120:])
+        if m:
+            bump(meas["error_kinds"], m.group(1))
+        for m in TOKKIND_RE.finditer(pull):
+            bump(meas["token_kinds"], m.group(1))
+    if lines.get("saxm") is not None and "mask" in c:
+        meas["masks"].add(c["mask"])
+    dom = lines.get("dom")
+    if dom is not None:
+        bump(meas["dom_outcomes"], "doc" if dom.startswith("doc[") else "null:" + (dom.split(" ", 2)[1] if dom.startswith("null ") and " " in dom[5:] else dom[:20]))
 
 
 def report_property(ctx, hb, c, impl, model, fails):
@@ -1424,4 +1849,6 @@ def report_property(ctx, hb, c, impl, model, fails):
         obj["document"] = c["doc"].decode("utf-8", "replace")
     if c.get("expect"):
         obj["expected_by_generator"] = c["expect"]
+    if c.get("build"):
+        obj["harness_build"] = c["build"]
     ctx.violation("property", fails[0], obj, found_input=True)
